@@ -241,13 +241,28 @@ PROPS['C16'] = {
 
 PROPS['C06'] = {
     'level': 'proof', 'claimed': True,
-    'claim': 'unbounded proofs on the real code: RemoveTips calls removeTip exactly on the tips whose membership in the given name list differs from `revert` (names absent from the tree have no effect because the loop ranges over the tips), refuses a listed node that is not a tip, and rebuilds the tip-name index after the last removal and before the branch indexes, so look-ups by name reflect the pruned tip set; removeTip, when the inner node is left with two neighbours and is suppressed, gives the merging branch max(0,l1)+max(0,l2) exactly when either length is present (absent otherwise); delNode kills exactly the given node and only its own branches lose their ends',
-    'level_note': INVNOTE + '; the support rule and the orientation of the merging branch after the degree-one chain loop are not yet discharged (they need symmetric adjacency as a loop invariant) and are not claimed; induced-subtree consequences (splits are the restrictions, path lengths unchanged) follow per removed tip from graph lemmas L5/L3 (A-GRAPH)',
+    'claim': 'unbounded proofs on the real code: RemoveTips calls removeTip exactly on the tips whose membership in the given name list differs from `revert` (names absent from the tree have no effect because the loop ranges over the tips), refuses a listed node that is not a tip, and rebuilds the tip-name index after the last removal and before the branch indexes, so look-ups by name reflect the pruned tip set; removeTip, when the inner node is left with two neighbours and is suppressed, gives the merging branch max(0,l1)+max(0,l2) exactly when either length is present (absent otherwise), the larger support only when both neighbours are inner nodes (absent otherwise), and when the suppressed node was the root the new root is the upper end of the merging branch; the degree-one chain loop keeps the invariants INV1, INV2, INV5, OWN, INVE; delNode kills exactly the given node and only its own branches lose their ends',
+    'level_note': INVNOTE + '; preconditions: the tip hangs below its branch (its branch points to it); inside the chain loop the precondition of delNeighbor on the parent (the remaining branch of a degree-one inner node points to it) is unestablished and reported; INV3 (branch ends) is not carried through the chain loop (deletions need symmetric adjacency); induced-subtree consequences (splits are the restrictions, path lengths unchanged) follow per removed tip from graph lemmas L5/L3 (A-GRAPH)',
     'packages': ['./tree', './hashmap'],
-    'functions': [('(*tree.Tree).removeTip', {'match': [r'^return\.merged_branch_carries_the_summed_length', r'^post\.the_name_index']}),
+    'functions': [('(*tree.Tree).removeTip', {'match': [r'^return', r'^post', r'^inv', r'^nil', r'^bounds', r'^pre\.\(\*tree\.Tree\)', r'^pre\.\(\*tree\.Node\)\.delNeighbor\.0$', r'^pre\.\(\*tree\.Node\)\.delNeighbor\.0\[[2-9]\]']}),
                   ('(*tree.Tree).RemoveTips', {'match': [r'^callsite', r'^post', r'^inv', r'^nil', r'^bounds']}),
                   '(*tree.Tree).delNode', '(*tree.Node).delNeighbor', '(*tree.Node).NodeIndex'],
     'trusted_base': TB_COMMON,
     'assumptions': A_COMMON,
     'not_decided': ['induced-subtree theorem as a whole (A-GRAPH)', 'cmd/prune.go specificTips'],
+}
+
+PROPS['C03'] = {
+    'level': 'proof', 'claimed': True,
+    'claim': 'unbounded proofs on the real code that the editing primitives re-establish the representation invariant (parallel adjacency arrays, live non-self entries, every branch joins its node and the neighbour in the same slot, simple graph, unshared backing arrays, branch ends allocated) and the orientation invariant (at most one incoming branch per node, none at the root): NewNode, ConnectNodes (plus symmetric new slots), GraftTipOnEdge, NNI Apply and Undo; delNeighbor removes exactly the first slot holding the neighbour from both parallel arrays keeping the order of the rest; delNode kills exactly its node; InternalEdges returns inner branches only (every branch appended by the recursion has a non-tip lower end). Sequences of edits are covered by modularity (each operation from invariant to invariant)',
+    'level_note': INVNOTE + '; removeTip, RemoveEdges, UnRoot, Reroot/ReorderEdges, Resolve, AddBipartition, InsertIdenticalTip, Merge, GraftTreeOnTip are not yet proved to preserve the invariant (deletions need symmetric adjacency as an invariant); nil-safety of the enumerators needs the invariant as precondition (reported as unestablished)',
+    'packages': ['./tree', './hashmap'],
+    'functions': ['(*tree.Tree).NewNode', '(*tree.Tree).ConnectNodes', '(*tree.Tree).GraftTipOnEdge', '(*tree.nni).Apply', '(*tree.nni).Undo',
+                  '(*tree.Node).delNeighbor', '(*tree.Tree).delNode', '(*tree.Node).NodeIndex', '(*tree.Node).EdgeIndex',
+                  ('(*tree.Tree).removeTip', {'match': [r'^return\.when_the_suppressed', r'^inv']}), ('(*tree.Tree).edgesRecur', {'match': [r'^post', r'^inv']}),
+                  ('(*tree.Tree).internalEdgesRecur', {'match': [r'^post', r'^inv']}),
+                  ('(*tree.Tree).InternalEdges', {'match': [r'^post', r'^inv']})],
+    'trusted_base': TB_COMMON,
+    'assumptions': A_COMMON,
+    'not_decided': ['acyclicity / connectivity after each surgery (A-GRAPH: lemmas L1-L9)', 'counting clauses (branches = nodes - 1; all = internal + external)', 'global symmetric adjacency as a quantified invariant'],
 }
